@@ -150,8 +150,8 @@ class RowDenoisingTransformer(BaseEstimator, TransformerMixin):
 
         """
         if scipy.sparse.issparse(X):
-            X.eliminate_zeros()
-            if X.nnz == 0:
+            # explicit zeros do not change the column sums; do not strip them from the caller's matrix
+            if X.count_nonzero() == 0:
                 warn("Cannot fit an empty matrix")
                 return self
             self.background_model_ = np.squeeze(
@@ -222,6 +222,6 @@ class RowDenoisingTransformer(BaseEstimator, TransformerMixin):
 
         """
         self.fit(X, **fit_params)
-        if X.nnz == 0:
+        if X.count_nonzero() == 0:
             return X
         return self.transform(X)
